@@ -1189,6 +1189,8 @@ const DEFS: &[&str] = &[
     "Z() := A",
     "Z() := F",
     "Z() :=",
+    "Z() := x ## y",
+    "Z() := p ## 1 A",
     // the same body as an earlier definition of the name, under a different signature
     "A(x) := 1",
     "G(x) := x + y",
